@@ -101,6 +101,7 @@ type Exec struct {
 	lockSeq  int
 	safety   bool // generate safety obligations for the top frame
 	probing  int
+	interpretNL bool
 	pureExpanding map[string]int
 }
 
@@ -216,6 +217,10 @@ func (ex *Exec) globalGet(st *State, g *ssa.Global) string {
 	if t, ok := st.heap[comp]; ok {
 		return t
 	}
+	if ex.prog.globalByComp == nil {
+		ex.prog.globalByComp = map[string]*ssa.Global{}
+	}
+	ex.prog.globalByComp[comp] = g
 	et := g.Type().(*types.Pointer).Elem()
 	es := ex.vc.tc.sortOf(et)
 	ex.vc.heapT[comp] = heapComp{sort: es, typ: et}
@@ -409,7 +414,7 @@ func (ex *Exec) rangeFact(t string, T types.Type, depth int) string {
 	tc := ex.vc.tc
 	switch u := T.Underlying().(type) {
 	case *types.Basic:
-		if w, signed, ok := intWidth(u); ok && ex.vc.mode == ModeInt {
+		if w, signed, ok := intWidth(u); ok && !tc.isBV(T) {
 			lo, hi := intRange(w, signed)
 			return sAnd(sx("<=", lo, t), sx("<=", t, hi))
 		}
@@ -429,12 +434,7 @@ func (ex *Exec) rangeFact(t string, T types.Type, depth int) string {
 	case *types.Slice:
 		so := tc.sortOf(T)
 		l := sx("len_"+so, t)
-		var c string
-		if ex.vc.mode == ModeInt {
-			c = sAnd(sx("<=", "0", l), sx("<=", l, "4611686018427387904"))
-		} else {
-			c = sAnd(sx("bvsle", tc.idxLit(0), l), sx("bvsle", l, tc.idxLit(4611686018427387904)))
-		}
+		c := sAnd(sx("<=", "0", l), sx("<=", l, "4611686018427387904"))
 		// element facts
 		if depth <= 2 {
 			ef := ex.rangeFact(sx("select", sx("arr_"+so, t), "qi!"), u.Elem(), depth+1)
